@@ -8,8 +8,10 @@ import (
 	"io"
 	"runtime"
 	"testing"
+	"time"
 
 	"verif.local/lib/evid"
+	"verif.local/lib/refs"
 	"verif.local/lib/rfc"
 	"verif.local/lib/xdrw"
 )
@@ -46,10 +48,63 @@ func vfAllocDelta(f func()) uint64 {
 // vfC13Panics collects panics raised by decoders on hostile input.
 var vfC13Panics []string
 
+// vfC13ServerRecordLimit: the 1 MiB record limit as the SERVER applies it to a connection, for
+// small and very large configured transfer sizes: a record beyond it (one fragment, or many whose sum
+// is beyond it) is not reassembled and not answered; one well within it is.
+func vfC13ServerRecordLimit(rec *evid.Rec) {
+	for _, ts := range []int{0, 1 << 20, 8 << 20} {
+		for _, shape := range []string{"within-limit", "one-fragment-over", "many-fragments-over", "far-over"} {
+			fs := refs.New()
+			srv, err := vfNewSrv(fs, ExportOptions{AttrCacheTimeout: 1, TransferSize: ts})
+			if err != nil {
+				rec.Infra(err.Error())
+				return
+			}
+			p := srv.pipe("127.0.0.1", 690)
+			total := map[string]int{"within-limit": 512 << 10, "one-fragment-over": 1<<20 + 4, "many-fragments-over": 1<<20 + 65536, "far-over": 6 << 20}[shape]
+			msg := xdrw.CallHeader(7777, vfProgNFS, 3, 0, xdrw.Cred{})
+			msg = append(msg, make([]byte, total-len(msg))...)
+			var stream []byte
+			if shape == "many-fragments-over" || shape == "far-over" {
+				n := (len(msg) - 1) / 65536
+				sizes := make([]int, n)
+				for i := range sizes {
+					sizes[i] = 65536
+				}
+				stream = xdrw.Fragments(msg, sizes)
+			} else {
+				stream = xdrw.Record(msg)
+			}
+			go func() {
+				p.c.SetWriteDeadline(time.Now().Add(30 * time.Second))
+				p.c.Write(stream)
+			}()
+			raw, rerr := p.recv(30 * time.Second)
+			answered := rerr == nil && len(raw) >= 4
+			rec.Eval(1)
+			desc := fmt.Sprintf("TransferSize=%d, a %d-byte record (%s) carrying a NULL call", ts, total, shape)
+			if shape == "within-limit" && !answered {
+				if ne, ok := rerr.(interface{ Timeout() bool }); ok && ne.Timeout() {
+					rec.Inconclusive(1)
+				} else {
+					rec.Violate("C13/server/record-within-limit-not-answered", fmt.Sprintf("%s: %v", desc, rerr), nil)
+				}
+			}
+			if shape != "within-limit" && answered {
+				rec.Violate("C13/server/record-over-limit-reassembled-and-answered/"+shape, desc+" was answered; the record limit is 1 MiB whatever the transfer size", map[string]any{"transfer_size": ts, "record_bytes": total})
+			}
+			rec.Distinct(fmt.Sprintf("server-record-limit|ts=%d|%s|answered=%v", ts, shape, answered))
+			p.close()
+			srv.Close()
+		}
+	}
+}
+
 func TestVerif_C13(t *testing.T) {
 	rec := evid.New("C13")
 	rec.Rule = "strings/opaques of length 0-9 and limit-1..limit+1 for every limit (string 8192, auth 400, handle 64, gids 16, record 1MiB), every cut point of every valid encoding, declared lengths 2^31 and 2^32-1 with tiny payloads (allocation measured), all 2^(n-1) fragmentations of records of n<=10 (quick) / 13 (thorough) bytes with zero-length fragments interleaved, random fragmentations up to 1MiB, writer fragment sizes {1,3,4,5,1MiB}; distinct = (codec, length class, outcome) tuples"
 	defer rec.Write()
+	vfC13ServerRecordLimit(rec)
 	rng := evid.Rng(13)
 	content := func(n int, nul bool) []byte {
 		b := make([]byte, n)
